@@ -1,15 +1,16 @@
 """C08 - IPv4 fragment reassembly reconstructs the original datagram."""
-import itertools
+import itertools, os
 from driver import Unit, Inst
-EXPLANATION = ('The real IPv4Reassembler::process (std::map of IPv4Stream, IPv4Stream::add_fragment / is_complete / allocate_pdu, IP copy assignment, RawPDU serialization, the real protocol dispatcher) is run on a '
+EXPLANATION = ('The real IPv4Reassembler::process (std::map of IPv4Stream, IPv4Stream::add_fragment / is_complete / allocate_pdu, IP copy assignment, RawPDU serialization) is run on a '
                'schedule of packets: the k fragments of a datagram D (8 bytes each, last one 1..8 bytes) in every order, with a duplicate at every position, interleaved with a fragment of another datagram X '
-               'whose identification / address pair is symbolic and constrained only to differ from D\'s key, and with an unfragmented packet carrying D\'s key. The schedule is concrete per query; D\'s id, addresses, '
-               'ttl, tos and every payload byte are symbolic. After each step the returned status is compared with a set-of-offsets model; on completion the header fields, cleared offset/MF and the payload bytes are compared.')
+               '(other identification or other address pair) and with an unfragmented packet carrying D\'s key. The schedule and the keys (one of six configurations: id / address extremes, source == destination, '
+               'swapped roles) are concrete per query; ttl, tos, protocol number and every payload byte are symbolic. After each step the returned status is compared with a set-of-offsets model; on completion the header fields, cleared offset/MF and the payload bytes are compared.')
 BOUNDS = {'quick': 'k=2: every schedule of length <= 3 over {f0, f1, X, U}; k=3: all 6 orders and all 36 orders with one duplicate; last fragment of 3 bytes; any header values and payload bytes',
           'thorough': 'k=2 and k=3 additionally with X and U interleaved at every position (length <= 5), last-fragment sizes 1 and 8; k=4 all 24 orders'}
-OUTSIDE = ('datagrams of more than 4 fragments or fragments larger than 8 bytes; more than two concurrent datagrams; overlapping fragments (excluded by the property); upper-layer protocols other than an unrecognised one '
+OUTSIDE = ('symbolic stream keys (tried with a symbolic key for X: no verdict in 300 s); datagrams of more than 4 fragments or fragments larger than 8 bytes; more than two concurrent datagrams; overlapping fragments (excluded by the property); upper-layer protocols other than an unrecognised one '
            '(the concatenated payload is re-parsed by the dispatcher, whose parsers are C01\'s subject); IP options in the fragments; the overlapping-technique argument (unused by the code)')
-ASSUMPTIONS = ['the four libstdc++.so red-black-tree primitives are engine/models/rbtree.c (a line-by-line C port of libstdc++ tree.cc)',
+ASSUMPTIONS = ['Internals::pdu_from_flag(Constants::IP::e, ...) - the upper-layer dispatcher - is a stub that records the protocol number it is asked for and returns the bytes as a RawPDU',
+               'the four libstdc++.so red-black-tree primitives are engine/models/rbtree.c (a line-by-line C port of libstdc++ tree.cc)',
                'fragments are built through the public API (IP + RawPDU), not parsed from the wire']
 NRAND = {'quick': 20, 'thorough': 60}
 def units(tier): return [Unit('c08', shim='c08.cpp', models=['engine/models/rbtree.c'], differential=False,
@@ -47,6 +48,7 @@ def instances(tier):
     out = []
     for n, (k, last, seq) in enumerate(scheds(tier)):
         kc = n % 6
-        out.append(Inst('c08', 'h_c08_schedule', params=(len(seq), k, last, enc(seq), kc), unwind=20, unwindset={'vp_memcpy.0': 40, 'vp_memmove.0': 40, 'vp_memmove.1': 40, 'vp_memset.0': 40}, timeout=600, mem_gb=6, recursion=3,
-                        note='k=%d fragments (last %d bytes), key configuration %d, schedule %s' % (k, last, kc, ' '.join(NAMES.get(c, 'f%d' % c) for c in seq))))
+        symx = 1 if (5 in seq and os.environ.get('C08_SYMX', '0') == '1') else 0   # a symbolic key for the other datagram was tried: no schedule with it finished in 300 s, so it is off unless C08_SYMX=1
+        out.append(Inst('c08', 'h_c08_schedule', params=(len(seq), k, last, enc(seq), kc, symx), unwind=20, unwindset={'vp_memcpy.0': 40, 'vp_memmove.0': 40, 'vp_memmove.1': 40, 'vp_memset.0': 40}, timeout=600, mem_gb=6, recursion=3,
+                        note='k=%d fragments (last %d bytes), key configuration %d%s, schedule %s' % (k, last, kc, ' (X symbolic)' if symx else '', ' '.join(NAMES.get(c, 'f%d' % c) for c in seq))))
     return out
